@@ -18,7 +18,10 @@ RULE = (
     "returning a container or writing a file: readers (read_block incl. selection by channel label, "
     "read_dedisp_block, collapse, dedisperse, read_chan, bandpass), files (invert_freq, apply_channel_mask, "
     "downsample, extract_samps/chans/bands, subband, remove_zerodm), blocks (FilterbankBlock.dedisperse/downsample/"
-    "get_tim/dmt_transform/to_file, TimeSeries.downsample/pad). Oracle: nsamples/nchans = data shape (file: from "
+    "get_tim/dmt_transform/to_file, TimeSeries.downsample/pad), chains (1-4 block operations from {downsample, dedisperse, "
+    "normalise, pad_samples} on a block that was read, then get_tim - or collapse - then 0-3 of TimeSeries.{downsample, pad, "
+    "deredden, normalise, apply_boxcar, resample(0)} and to_tim, the header checked after EVERY step against the "
+    "accumulated factors, channel groups and applied DM). Oracle: nsamples/nchans = data shape (file: from "
     "size), nbits = on-disk width, tsamp = input*tfactor, tstart = input + start*tsamp/86400 within 5 us, recorded "
     "DM = applied DM, output channel labels fch1+j*foff equal the source channel's label within 0.02*|foff| "
     "(selection / reversed for inversion) or lie inside the span of the combined inputs with |foff| scaled by the "
@@ -433,6 +436,130 @@ def check_blocks(case, ctx):
     return Info(s.nontrivial or tf * ff > 1, tuple(lab))
 
 
+# ------------------------------------------------------------------ chains of container operations
+
+BLOCK_OPS = ["downsample", "dedisperse", "normalise", "pad_samples"]
+TS_OPS = ["downsample", "pad", "deredden", "normalise", "apply_boxcar", "resample"]
+
+
+@st.composite
+def strat_chains(draw, tier):
+    c = draw(strat_case(tier, min_chans=2))
+    c["via"] = draw(st.sampled_from(["block", "block", "collapse"]))
+    c["chain"] = [{"op": draw(st.sampled_from(BLOCK_OPS)), "a": draw(st.integers(0, 1000)), "b": draw(st.integers(0, 1000))}
+                  for _ in range(draw(st.integers(1, 4)))]
+    c["ts_chain"] = [{"op": draw(st.sampled_from(TS_OPS)), "a": draw(st.integers(0, 1000))} for _ in range(draw(st.integers(0, 3)))]
+    c["dm"] = draw(st.sampled_from([1.0, 10.0, -5.0, 30.0, 300.0]))
+    return c
+
+
+def check_chains(case, ctx):
+    """A product derived from a derived product is a derived product: after every step of a chain of container
+    operations the header still describes the data (shape, sampling interval, start epoch, channel labels, DM)."""
+    s = S(case, ctx)
+    lab = list(s.labels)
+    steps = []
+    tf_cum = 1
+    dm_applied = 0.0
+    padded = False
+
+    def generic(name, obj, nch_want, groups):
+        h = obj.header
+        data = np.asarray(obj.data)
+        where = f"{s.ctxt} chain={steps}"
+        if data.ndim == 2:
+            require(data.shape == (h.nchans, h.nsamples) and h.nchans == nch_want, f"{name}:shape",
+                    f"{where}: data {data.shape}, header ({h.nchans},{h.nsamples}), defined nchans {nch_want}")
+        else:
+            require(data.shape == (h.nsamples,) and h.nchans == 1, f"{name}:shape", f"{where}: data {data.shape}, header ({h.nchans},{h.nsamples})")
+        want_ts = TSAMP * tf_cum
+        require(abs(h.tsamp - want_ts) <= 1e-12 * want_ts, f"{name}:tsamp", f"{where}: tsamp {h.tsamp!r}, input x {tf_cum} = {want_ts!r}")
+        s.tstart_ok(name, h.tstart, s.start)
+        s.labels_ok(name, h.fch1, h.foff, nch_want, groups)
+        got_dm = obj.dm if hasattr(obj, "dm") else h.dm
+        if abs(got_dm - dm_applied) > 1e-9 * max(1.0, abs(dm_applied)):
+            raise Violation(f"{name}:dm", f"{where}: product records dm {got_dm!r}; the DM applied to its data is {dm_applied!r}")
+
+    n = s.nchans
+    groups = ident(n)
+    if case["via"] == "block":
+        obj = s.call("read_block", lambda: s.rd.read_block(s.start, s.eff))
+        for st_ in case["chain"]:
+            op, a, b = st_["op"], st_["a"], st_["b"]
+            ns, nch = obj.data.shape[1], obj.data.shape[0]
+            if op == "downsample":
+                ffs = [f for f in range(1, nch + 1) if nch % f == 0]
+                ff, tf = ffs[a % len(ffs)], 1 + b % min(3, ns)
+                steps.append(f"downsample(ff={ff},tf={tf})")
+                obj = s.call("chain:block.downsample", lambda: obj.downsample(ffactor=ff, tfactor=tf))
+                tf_cum *= tf
+                groups = [sum((groups[j * ff + i] for i in range(ff)), []) for j in range(nch // ff)]
+                require(obj.data.shape[1] == ns // tf, "chain:block.downsample:nsamples", f"{s.ctxt} {steps}")
+            elif op == "dedisperse":
+                if dm_applied != 0.0:
+                    continue
+                steps.append(f"dedisperse({case['dm']})")
+                obj = s.call("chain:block.dedisperse", lambda: obj.dedisperse(case["dm"]))
+                dm_applied = case["dm"]
+            elif op == "normalise":
+                steps.append("normalise()")
+                obj = s.call("chain:block.normalise", lambda: obj.normalise())
+            else:
+                k = 1 + a % 5
+                steps.append(f"pad_samples({ns + k},0)")
+                obj = s.call("chain:block.pad_samples", lambda: obj.pad_samples(ns + k, 0))
+                require(obj.data.shape[1] == ns + k, "chain:block.pad_samples:nsamples", f"{s.ctxt} {steps}")
+            generic("chain:block." + op, obj, len(groups), groups)
+        if dm_applied:
+            lab.append("chain_dedispersed")
+        steps.append("get_tim()")
+        ts = s.call("chain:get_tim", lambda: obj.get_tim())
+    else:
+        steps.append("collapse()")
+        ts = s.call("collapse", lambda: s.rd.collapse(**s.kw))
+    allch = [list(range(n))]
+    generic("chain:time-series", ts, 1, allch)
+    for st_ in case["ts_chain"]:
+        op, a = st_["op"], st_["a"]
+        ns = ts.data.size
+        if op == "downsample":
+            f = 1 + a % min(4, ns)
+            steps.append(f"ts.downsample({f})")
+            ts = s.call("chain:ts.downsample", lambda: ts.downsample(f))
+            tf_cum *= f
+            require(ts.data.size == ns // f, "chain:ts.downsample:nsamples", f"{s.ctxt} {steps}")
+        elif op == "pad":
+            steps.append(f"ts.pad({1 + a % 7})")
+            ts = s.call("chain:ts.pad", lambda: ts.pad(1 + a % 7))
+            require(ts.data.size == ns + 1 + a % 7, "chain:ts.pad:nsamples", f"{s.ctxt} {steps}")
+        elif op == "deredden":
+            w = (1 + a % 5) * ts.header.tsamp
+            steps.append(f"ts.deredden(window={w!r})")
+            ts = s.call("chain:ts.deredden", lambda: ts.deredden(method=["mean", "median"][a % 2], window=w))
+        elif op == "normalise":
+            steps.append("ts.normalise()")
+            ts = s.call("chain:ts.normalise", lambda: ts.normalise())
+        elif op == "apply_boxcar":
+            steps.append(f"ts.apply_boxcar({1 + a % 6})")
+            ts = s.call("chain:ts.apply_boxcar", lambda: ts.apply_boxcar(1 + a % 6))
+        else:
+            steps.append("ts.resample(0.0)")
+            ts = s.call("chain:ts.resample", lambda: ts.resample(0.0))
+        generic("chain:ts." + op, ts, 1, allch)
+    if len(steps) >= 3:
+        lab.append("chain>=3")
+    o = s.call("chain:to_tim", lambda: ts.to_tim(s.out("chain.tim")))
+    pf = sigfile.parse_file(o)
+    h = pf["hdr"]
+    require(h.get("nbits") == 32 and (pf["size"] - pf["hdrlen"]) == 4 * ts.data.size, "chain:to_tim:width", f"{s.ctxt} {steps}")
+    want_ts = TSAMP * tf_cum
+    require(abs(h.get("tsamp") - want_ts) <= 1e-12 * want_ts, "chain:to_tim:tsamp", f"{s.ctxt} {steps}: {h.get('tsamp')!r}")
+    s.tstart_ok("chain:to_tim", h.get("tstart"), s.start)
+    if abs(h.get("refdm", 0.0) - dm_applied) > 1e-9 * max(1.0, abs(dm_applied)):
+        raise Violation("chain:to_tim:dm", f"{s.ctxt} chain={steps}: file records refdm {h.get('refdm')!r}; the DM applied is {dm_applied!r}")
+    return Info(len(steps) >= 3, tuple(lab))
+
+
 def subchecks(tier):
     q = {"quick": 500, "thorough": 25000}
     sh = {"quick": 4, "thorough": 8}
@@ -441,4 +568,5 @@ def subchecks(tier):
         SubCheck("dedisp", check_dedisp, strategy=lambda t: strat_dedisp(t), examples=q, shards=sh),
         SubCheck("files", check_files, strategy=lambda t: strat_files(t), examples={"quick": 400, "thorough": 20000}, shards=sh),
         SubCheck("blocks", check_blocks, strategy=lambda t: strat_blocks(t), examples=q, shards=sh),
+        SubCheck("chains", check_chains, strategy=lambda t: strat_chains(t), examples=q, shards=sh),
     ]
